@@ -787,7 +787,7 @@ def _hist_sub(eq, quick, thorough, shards_q, shards_t, weight):
   return Subcheck(
       name=f'history_{eq}', run=run_history, strategy=lambda tier, eq=eq: _history_case(tier, eq),
       examples={'quick': quick, 'thorough': thorough}, shards={'quick': shards_q, 'thorough': shards_t},
-      wall={'quick': 240.0, 'thorough': 1500.0}, rule=_HIST_RULE, weight=weight,
+      wall={'quick': 400.0, 'thorough': 1500.0}, rule=_HIST_RULE, weight=weight,
       doc=f'operation histories on {eq}: invariants after every operation')
 
 
@@ -798,7 +798,7 @@ SUBCHECKS = [
     _hist_sub('sw', 6, 120, 1, 3, 7),
     Subcheck(name='tendency_structure', run=run_tendency, strategy=_tendency_case,
              examples={'quick': 40, 'thorough': 400}, shards={'quick': 1, 'thorough': 2},
-             wall={'quick': 150.0, 'thorough': 1200.0},
+             wall={'quick': 400.0, 'thorough': 1500.0},
              rule='input has non-zero vorticity and divergence', weight=3,
              doc='mechanisms: explicit/implicit tendencies and the implicit solve are clipped, masked, have no l=0 '
                  'component in vorticity/divergence/potential, leave a uniform tracer alone, and carry sim_time '
